@@ -655,8 +655,8 @@ fn main() {
         provers: Provers { real: None },
         held: None,
         // the bundled Sapling prover costs seconds per spend under load: quick tier uses it in every 4th shard
-        real_budget: args.get_u64("real-prover-txs", if thorough { 12 } else if args.shard % 4 == 0 { 1 } else { 0 }) as u32,
-        halo2_budget: args.get_u64("halo2-txs", if thorough { 10 } else { 0 }) as u32,
+        real_budget: args.get_u64("real-prover-txs", if thorough { 6 } else if args.shard % 4 == 0 { 1 } else { 0 }) as u32,
+        halo2_budget: args.get_u64("halo2-txs", if thorough { 5 } else { 0 }) as u32,
         create_spent_ms: 0,
     };
     for i in 0..n {
